@@ -465,7 +465,7 @@ class ModelfitResults(Results):
     evaluation: Optional[pd.Series] = None
     covstep_successful: Optional[bool, None] = None
     gradients: Optional[pd.Series] = None
-    gradients_iterations: Optional[pd.DataFrame] = (None,)
+    gradients_iterations: Optional[pd.DataFrame] = None
     warnings: Optional[list[str]] = None
     individual_eta_samples: Optional[pd.DataFrame] = None
 
